@@ -50,6 +50,17 @@ def main():
         rc, o = sh("go test -vet=off -count=1 -timeout 300s -run TestSeedDemo . 2>&1 | tail -15", cwd=wt, timeout=900)
         out["demo_fails_with_change"] = ("FAIL" in o or "panic" in o or "timed out" in o)
         out["demo_tail"] = o[-400:]
+        if not out["demo_fails_with_change"]:
+            # a demonstration of an unsynchronised access only fails under the race detector
+            rc, o = sh("go test -race -vet=off -count=1 -timeout 600s -run TestSeedDemo . 2>&1 | tail -15", cwd=wt, timeout=1200)
+            if "FAIL" in o or "DATA RACE" in o or "panic" in o:
+                out["demo_fails_with_change"] = True
+                out["demo_needs_race_detector"] = True
+                out["demo_tail"] = o[-400:]
+                sh(["git", "stash", "-q"], cwd=wt)
+                rc, o = sh("go test -race -vet=off -count=1 -timeout 600s -run TestSeedDemo . 2>&1 | tail -15", cwd=wt, timeout=1200)
+                out["demo_passes_without_change"] = ("FAIL" not in o and "ok" in o)
+                sh(["git", "stash", "pop", "-q"], cwd=wt)
         os.remove(os.path.join(wt, "zz_seed_demo_test.go"))
         pids = [pid]
         if run_all:
